@@ -26,14 +26,25 @@ func Scan(data string, loc SourceLoc, delims []string) (tokens []Token) {
 
 	// TODO error on unterminated {{ and {%
 	// TODO probably an error when a tag contains a {{ or {%, at least outside of a string
+	endMatchers := map[string]*regexp.Regexp{}
 	p, pe := 0, len(data)
-	for _, m := range tokenMatcher.FindAllStringSubmatchIndex(data, -1) {
+	for p < pe {
+		m := tokenMatcher.FindStringSubmatchIndex(data[p:])
+		if m == nil {
+			break
+		}
+		for i := range m {
+			if m[i] >= 0 {
+				m[i] += p
+			}
+		}
 		ts, te := m[0], m[1]
 		if p < ts {
 			tokens = append(tokens, Token{Type: TextTokenType, SourceLoc: loc, Source: data[p:ts]})
 			loc.LineNo += strings.Count(data[p:ts], "\n")
 		}
 		source := data[ts:te]
+		blockEnd := ""
 		switch {
 		case data[ts:ts+len(delims[0])] == delims[0]:
 			if source[len(delims[0])] == '-' {
@@ -73,9 +84,27 @@ func Scan(data string, loc SourceLoc, delims []string) (tokens []Token) {
 					Type: TrimRightTokenType,
 				})
 			}
+			if tok.Name == "raw" || tok.Name == "comment" {
+				blockEnd = "end" + tok.Name
+			}
 		}
 		loc.LineNo += strings.Count(source, "\n")
 		p = te
+		if blockEnd != "" {
+			// The body of a raw or comment block is not tokenized: whatever tag-like
+			// text it contains, it extends to where the first end tag starts.
+			endMatcher, ok := endMatchers[blockEnd]
+			if !ok {
+				endMatcher = regexp.MustCompile(fmt.Sprintf(`%s-?\s*%s\b`, regexp.QuoteMeta(delims[2]), blockEnd))
+				endMatchers[blockEnd] = endMatcher
+			}
+			if end := endMatcher.FindStringIndex(data[p:]); end != nil && end[0] > 0 {
+				body := data[p : p+end[0]]
+				tokens = append(tokens, Token{Type: TextTokenType, SourceLoc: loc, Source: body})
+				loc.LineNo += strings.Count(body, "\n")
+				p += end[0]
+			}
+		}
 	}
 	if p < pe {
 		tokens = append(tokens, Token{Type: TextTokenType, SourceLoc: loc, Source: data[p:]})
